@@ -187,7 +187,10 @@ def handler(p):
                 pd.DataFrame.from_dict = orig_from_dict
             res = {'cells': cells_of_df(df)}
             res['raw'] = cells_of_raw(captured[0]) if len(captured) == 1 else None
-            res['filter'] = filter_decisions(T, args, o, [paths[i] for i in libs]) if p.get('filter') else None
+            try:
+                res['filter'] = filter_decisions(T, args, o, [paths[i] for i in libs]) if p.get('filter') else None
+            except Exception:
+                res['filter'] = None        # e.g. a changed signature: the table comparison still stands
             out.append(res)
         except BaseException as e:
             if isinstance(e, (KeyboardInterrupt,)):
